@@ -35,6 +35,7 @@ PYVC_MODULES = [
     "contracts.fusecache",
     "contracts.indexops",
     "contracts.truncation",
+    "contracts.reshape",
 ]
 
 BASE = [A_BUILTINS, A_INT, A_TERM, A_NUMPY, A_BOUNDED, A_USER]
@@ -81,8 +82,8 @@ _ALL = {
     ),
     "C07": _p(
         ["bounded.run_C07"],
-        "exploration",
-        "No deductive content: calc_reshape_args manipulates string labels built with f-strings (outside the verifier's subset) and the property itself prescribes exhaustion. Bounded, complete up to the stated bound: the axis-matching routine exhaustively over shapes with <=5 axes of sizes {1,2,3,4,6}; array-level round trips.",
+        "other",
+        "Proof core (rank-bounded, every size symbolic): the axis matcher calc_reshape_args returns, for every drop / merge / add-size-one recipe over shapes with <= 4 axes and for the trip back from the shape its own plan produces (merged axes block-sparse: 1 <= size <= product), a well-formed plan whose application gives exactly the requested shape, and the empty plan for a request of the current shape (the two known findings F16, F17 are the only refuted obligations; their solver inputs replay natively). The array-level content (norm, stored magnitudes, exact round trip of blocks) is numpy / fuse machinery: bounded tier, which also runs the matcher exhaustively over shapes with <=5 axes of sizes {1,2,3,4,6}.",
     ),
     "C08": _p(
         ["bounded.run_C08"],
@@ -114,7 +115,7 @@ _ALL = {
     "C13": _p(
         ["bounded.run_C13"],
         "other",
-        "Proof core: calc_sub_max_bonds returns the sizes unchanged when no limit applies and otherwise a split with sum == max_bond and 0 <= part <= sector size (unbounded number of sectors; reals for floats). Bounded: kept-set oracle for six cutoff modes x cutoffs x bond limits x absorb options.",
+        "Proof core: (1) positive cutoff -- the truncation threshold computed by svd_truncated (the real code up to the per-sector counts) keeps exactly the values permitted by the selected cutoff rule and the bond limit, for all six modes, any number of singular values (reals, numpy primitives as ghost folds); every kept value >= every discarded one; a larger cutoff never keeps more; the known findings F8 (cutoff above the total weight) and F11 (ties at the bond limit) are the only refuted obligations and their solver counterexamples replay natively. (2) no cutoff -- calc_sub_max_bonds returns a split with sum == max_bond and 0 <= part <= sector size. Slicing of the factors, absorption, error identity: bounded tier (kept-set oracle for six modes x cutoffs x bond limits x absorb options).",
         extra=["fold lemmas LS_store / LS_scale / LS_floor assumed at the instances used (Lean: contracts/lean)"],
     ),
     "C14": _p(
